@@ -29,240 +29,7 @@ from driver import Check, main
 from vlib import MachineryError, NCPU, REPO, fxs, use_repo
 import cachelib
 
-use_repo()
-import traffic_weaver.datasets as twd            # noqa: E402
-import traffic_weaver.datasets._base as base     # noqa: E402
-
-DESC_DIR = os.path.join(REPO, "src", "traffic_weaver", "datasets", "data_description")
-DATA_DIR = os.path.join(REPO, "src", "traffic_weaver", "datasets", "data")
-EMPTY_CALL = {"resolves": False, "loader": "none", "url": "", "checksum": "", "remoteFile": "", "folder": "", "slot": "",
-              "gzip": False, "validate": False, "file": ""}
-
-
-# --------------------------------------------------------------------------------------------------------
-# registry extraction
-# --------------------------------------------------------------------------------------------------------
-def documented_names():
-    out = []
-    for p in sorted(glob.glob(os.path.join(DESC_DIR, "*.md"))):
-        kind = "bundled" if os.path.basename(p).startswith("sandvine") else "remote"
-        for line in open(p, encoding="utf-8"):
-            m = re.match(r"^\|\s*(\d+)\s*\|\s*([^|\s][^|]*?)\s*\|", line)
-            if m:
-                out.append((m.group(2), kind, os.path.basename(p)))
-    return out
-
-
-def dataset_modules():
-    return [m for n, m in list(sys.modules.items()) if n.startswith("traffic_weaver.datasets") and m is not None]
-
-
-def capture_call(name):
-    """What load_dataset(name) does, with the remote loader and the resource loader stubbed."""
-    rec = dict(EMPTY_CALL)
-
-    def stub_remote(remote=None, dataset_filename=None, dataset_folder=None, data_home=None, download_if_missing=True,
-                    download_even_if_available=False, validate_checksum=True, n_retries=3, delay=1.0, gzip=False,
-                    unpack_dataset_columns=False, **kw):
-        rec.update(resolves=True, loader="remote", url=str(getattr(remote, "url", "")),
-                   checksum=str(getattr(remote, "checksum", "")), remoteFile=str(getattr(remote, "filename", "")),
-                   folder=str(dataset_folder), slot=str(dataset_filename), gzip=bool(gzip), validate=bool(validate_checksum))
-        return None
-
-    def stub_resources(file_name=None, *a, **kw):
-        rec.update(resolves=True, loader="resources", file=str(file_name).replace(os.sep, "/"))
-        return None
-
-    saved = []
-    for m in dataset_modules():
-        for attr, stub in (("load_csv_dataset_from_remote", stub_remote), ("load_csv_dataset_from_resources", stub_resources)):
-            if hasattr(m, attr):
-                saved.append((m, attr, getattr(m, attr)))
-                setattr(m, attr, stub)
-    try:
-        base.load_dataset(name)
-    except ValueError:
-        pass
-    except Exception as ex:  # noqa
-        rec["loader"] = "error:" + type(ex).__name__
-    finally:
-        for m, attr, old in saved:
-            setattr(m, attr, old)
-    return rec
-
-
-def variants_of(name):
-    vs = []
-    for v in (name.replace("-", "_"), name.replace("_", "-")):
-        if v != name and v not in vs:
-            vs.append(v)
-    return vs
-
-
-def extract_registry():
-    reg = []
-    for name, kind, src in documented_names():
-        reg.append({"name": name, "kind": kind, "table": src, "call": capture_call(name),
-                    "variants": [{"name": v, "call": capture_call(v)} for v in variants_of(name)]})
-    return reg
-
-
-def tla(v):
-    """Python value -> TLA+ literal (records, sequences, strings, booleans)."""
-    if isinstance(v, bool):
-        return "TRUE" if v else "FALSE"
-    if isinstance(v, str):
-        return '"' + v.replace("\\", "\\\\").replace('"', '\\"') + '"'
-    if isinstance(v, int):
-        return str(v)
-    if isinstance(v, (list, tuple)):
-        return "<<" + ", ".join(tla(x) for x in v) + ">>"
-    if isinstance(v, dict):
-        return "[" + ", ".join("%s |-> %s" % (k, tla(x)) for k, x in v.items()) + "]"
-    raise MachineryError("cannot write %r as a TLA+ value" % (v,))
-
-
-def registry_module(registry, live):
-    """The generated module RegistryData.tla."""
-    recs = [{k: r[k] for k in ("name", "kind", "call", "variants")} for r in registry]
-    by = {r["name"]: r["call"] for r in registry}
-    fn = lambda f: ("[d \\in RegDatasets |-> CASE " + "\n      [] ".join('d = %s -> %s' % (tla(n), tla(f(by[n]))) for n in live)
-                    + "]") if live else "<<>>"
-    return ("---- MODULE RegistryData ----\n\\* generated by harness/c18.py from the working tree; do not edit\n"
-            "RegistryData == <<\n  " + ",\n  ".join(tla(r) for r in recs) + "\n>>\n"
-            "RegDatasets == {" + ", ".join(tla(n) for n in live) + "}\n"
-            "RegUrlOf == " + fn(lambda c: c["url"]) + "\n"
-            "RegSlotOf == " + fn(lambda c: c["folder"] + "/" + c["slot"]) + "\n====\n")
-
-
-# --------------------------------------------------------------------------------------------------------
-# real loads with a fake network
-# --------------------------------------------------------------------------------------------------------
-class World:
-    """Genuine payload per remote dataset; url -> payload; pinned checksum per url (for the _sha256 table)."""
-
-    def __init__(self, registry):
-        self.registry = registry
-        self.payload = {}
-        self.url_payload = {}
-        self.pinned = {}
-        self.digest = {}
-        for i, r in enumerate(registry):
-            c = r["call"]
-            if r["kind"] != "remote":
-                continue
-            rows = [(k, i + 1 + k / 8.0) for k in range(6)]
-            data = "".join("%d,%.3f\n" % x for x in rows).encode()
-            self.payload[r["name"]] = data
-            arr = np.loadtxt(io.BytesIO(data), delimiter=",", dtype=np.float64)
-            self.digest[cachelib.array_digest(arr)] = r["name"]
-            if c["resolves"] and c["loader"] == "remote":
-                self.url_payload.setdefault(c["url"], data)          # the first documented owner of a URL
-                self.pinned.setdefault(c["url"], c["checksum"])
-
-
-WORLD = None
-REAL_SHA = base._sha256
-
-
-def classify_return(out):
-    try:
-        if isinstance(out, tuple) and len(out) == 2:
-            a = np.column_stack([np.asarray(out[0]), np.asarray(out[1])])
-            return ["pair", WORLD.digest.get(cachelib.array_digest(a), "")]
-        if isinstance(out, np.ndarray):
-            return ["array", WORLD.digest.get(cachelib.array_digest(out), "")]
-    except Exception:
-        pass
-    return ["other", ""]
-
-
-def listing(root):
-    out = []
-    for d, _, fs in os.walk(root):
-        for f in fs:
-            out.append(os.path.relpath(os.path.join(d, f), root))
-    return sorted(out)
-
-
-def one_load(name, canon, doc, unpack, mode, home, fake_home, foreign=None, prev=""):
-    urls, dlnames = [], []
-
-    def urlretrieve(url, filename=None, *a, **kw):
-        urls.append(url)
-        dlnames.append(os.path.basename(str(filename)))
-        data = WORLD.payload[foreign] if foreign else WORLD.url_payload.get(url)
-        if data is None:
-            raise URLError("no such url in the fake network")
-        with open(filename, "wb") as f:
-            f.write(data)
-        return filename, None
-
-    def sha(path):
-        with open(path, "rb") as f:
-            b = f.read()
-        for u, data in WORLD.url_payload.items():
-            if b == data:
-                return WORLD.pinned[u]             # the designated genuine payload of u has u's pinned checksum
-        return REAL_SHA(path)
-
-    saved = (base.urlretrieve, base._sha256, base.time)
-    base.urlretrieve, base._sha256, base.time = urlretrieve, sha, cachelib._Proxy(time, sleep=lambda s: None)
-    os.environ["TRAFFIC_WEAVER_DATA"] = home
-    os.environ["HOME"] = fake_home
-    before = set(listing(home))
-    default_home = os.path.join(fake_home, ".traffic-weaver-data")
-    import warnings
-    try:
-        with warnings.catch_warnings():
-            warnings.simplefilter("ignore")
-            out = twd.load_dataset(name, unpack_dataset_columns=unpack)
-        outcome = "ok"
-    except BaseException as ex:  # noqa
-        out, outcome = None, cachelib.classify_exc(ex)
-    finally:
-        base.urlretrieve, base._sha256, base.time = saved
-    ev = {"fn": "load", "name": name, "canon": canon, "doc": doc, "unpack": bool(unpack), "mode": mode, "prev": prev, "neg": False,
-          "outcome": outcome, "urls": urls, "dlnames": dlnames,
-          "created": [p for p in listing(home) if p not in before], "home_ok": not os.path.exists(default_home),
-          "ret": classify_return(out) if outcome == "ok" else ["other", ""]}
-    if doc == "bundled":
-        ev.update(bundled_fields(out, canon, unpack))
-    return ev
-
-
-def bundled_fields(out, canon, unpack):
-    f = {"shape": [], "dtype": "", "x": [], "y": [], "csvx": [], "csvy": []}
-    try:
-        if unpack and isinstance(out, tuple) and len(out) == 2:
-            x, y = np.asarray(out[0]), np.asarray(out[1])
-            f["ret"] = ["pair", ""] if x.ndim == 1 and y.ndim == 1 else ["other", ""]
-            arr = np.column_stack([x, y])
-            f["dtype"] = str(x.dtype) if x.dtype == y.dtype else "mixed"
-        elif isinstance(out, np.ndarray):
-            arr = out
-            f["ret"] = ["array", ""]
-            f["dtype"] = str(arr.dtype)
-        else:
-            return f
-        f["shape"] = [int(v) for v in arr.shape]
-        if arr.ndim == 2 and arr.shape[1] == 2:
-            f["x"], f["y"] = fxs(arr[:, 0]), fxs(arr[:, 1])
-    except Exception:
-        pass
-    rec = next((r for r in WORLD.registry if r["name"] == canon), None)
-    if rec and rec["call"]["file"]:
-        try:
-            for line in open(os.path.join(DATA_DIR, rec["call"]["file"])):
-                if line.strip():
-                    a, b = line.split(",")
-                    fa, fb = Fraction(a.strip()), Fraction(b.strip())
-                    f["csvx"].append([fa.numerator, fa.denominator])
-                    f["csvy"].append([fb.numerator, fb.denominator])
-        except Exception:
-            f["csvx"], f["csvy"] = [], []
-    return f
-
+from cachelib import (extract_registry, registry_module, variants_of, World, one_load, REAL_SHA)  # noqa: E402
 
 _ROOT = None
 _COUNTER = [0]
@@ -319,7 +86,7 @@ def run():
     registry = extract_registry()
     if len(registry) < 2:
         raise MachineryError("no documented names found under %s" % DESC_DIR)
-    WORLD = World(registry)
+    WORLD = cachelib.WORLD = World(registry)
     live = [r["name"] for r in registry if r["kind"] == "remote" and r["call"]["resolves"] and r["call"]["loader"] == "remote"]
     regfile = c.scratch.path("RegistryData.tla")
     with open(regfile, "w") as f:
